@@ -328,7 +328,7 @@ def run_shard(spec, seed, tier):
         except Violation as v:
             res.add_violation({"scheme": spec["scheme"], "long_run": True, "seed": seed, "tier": tier}, str(v), v.bucket)
         return res
-    n = 100 if tier == "quick" else 1000
+    n = 100 if tier == "quick" else 500
     hyp.search(res, st_case(spec["scheme"]), body, seed, n)
     return res
 
